@@ -463,14 +463,19 @@ func (w *c19Worker) judge(c *c19Case, msg string) (outcome string, fails []c19Fa
 		fail("structure|"+p.structErr, "the excerpt frame is malformed: "+p.structErr)
 		return "malformed", fails
 	}
-	if c.D > len(truth) {
-		// clause 5: the file is shorter than the reported line, yet an excerpt was rendered
+	hasDiagRow := false
+	for _, r := range p.rows {
+		hasDiagRow = hasDiagRow || r.num == c.D
+	}
+	if c.D > len(truth) || c.allowNone && !hasDiagRow {
+		// clause 5: the line reader cannot reach the reported line (file too short, or an overlong line
+		// in the way), yet an excerpt - of other lines - was rendered
 		nums := []int{}
 		for _, r := range p.rows {
 			nums = append(nums, r.num)
 		}
 		fail(fmt.Sprintf("degraded|kind=%s|excerpt-without-the-diagnostic-line", c.kind),
-			fmt.Sprintf("the file has %d lines, the diagnostic is on line %d, and an excerpt of rows %v was rendered", len(truth), c.D, nums))
+			fmt.Sprintf("the line reader cannot return line %d (file of %d lines), the diagnostic is on line %d, and an excerpt of rows %v was rendered", c.D, len(truth), c.D, nums))
 		return "excerpt-of-other-lines", fails
 	}
 
@@ -615,9 +620,14 @@ func (w *c19Worker) judge(c *c19Case, msg string) (outcome string, fails []c19Fa
 				caretOut = "pastend=last"
 				w.counts["pastend_caret_under_last_char"]++
 			default:
-				fail(fmt.Sprintf("caret|class=%s|shape=%s|past-end|off=%s", c.class, loc.shape, c19Bucket(caretCell-after)),
+				offs := c19Bucket(caretCell - after)
+				afterIdx := r.prefixLen + lead + (L - start)
+				if !strings.Contains(r.raw[:afterIdx], "\t") && caretCell > after && (caretIdx == afterIdx || caretIdx == afterIdx-1) {
+					offs = "+extrabytes" // right by bytes, wrong by cells
+				}
+				fail(fmt.Sprintf("caret|class=%s|shape=%s|past-end|off=%s", c.class, loc.shape, offs),
 					fmt.Sprintf("column %d is just past the end of the %d-byte line; the caret is in cell %d, the line ends in cell %d", c.col, L, caretCell, after))
-				caretOut = "pastend=off" + c19Bucket(caretCell-after)
+				caretOut = "pastend=off" + offs
 			}
 			continue
 		}
